@@ -43,6 +43,7 @@ struct Shared {
     volatile uint32_t done;
     char cls[64];
     char msg[2048];
+    char tag[160];
     uint64_t steps, switches, preempts, sim_ns, hash, sig_hash, choices;
     uint32_t nfibers, window, strategy, tso, faults_on, P;
     uint32_t n_faults; NamedCount faults[32];
